@@ -413,6 +413,43 @@ let c03_chk t =
   let steps = tlist t n (fun t -> let c = ti t = 1 in let k = ti t in (c, tlist t k tz)) in
   "ok=" ^ sb (atomic_vis last steps)
 
+(* ---------- C05 ---------- *)
+(* srvq <state> <need>          -> the model's answers
+   chk_srv <state> <need> <n> {msg}  -> oracle on the implementation's answers
+   state: L{v K{seq id}} G{a b} B{v K{seq id}} S{v K{a b last}} N{a b} <max|-1> <rowsize>
+   need:  NF s e | NP v K{s e}
+   msg:   F v s e last K{seq id} | E lo hi *)
+let p_rows t = let k = ti t in tlist t k (fun t -> let q = tz t in let i = tz t in (q, i))
+let p_srv t =
+  let nl = ti t in let live = tlist t nl (fun t -> let v = tz t in (v, p_rows t)) in
+  let gaps = p_ranges t in
+  let nb = ti t in let buf = tlist t nb (fun t -> let v = tz t in (v, p_rows t)) in
+  let ns = ti t in let sq = tlist t ns (fun t -> let v = tz t in let k = ti t in
+                                          (v, tlist t k (fun t -> let a = tz t in let b = tz t in let l = tz t in ((a, b), l)))) in
+  let needed = p_ranges t in
+  let mx = p_omax t in
+  let size = tz t in
+  { sv_live = live; sv_gaps = gaps; sv_buf = buf; sv_seq = sq; sv_needed = needed; sv_max = mx; sv_rowsize = size }
+let p_sneed t = match tok t with
+  | "NF" -> let s = tz t in let e = tz t in NFull (s, e)
+  | "NP" -> let v = tz t in NPartial (v, p_ranges t)
+  | x -> failwith ("bad need " ^ x)
+let fmt_msg = function
+  | MFull (v, rows, s, e, last) ->
+    "F" ^ sz v ^ ":" ^ sz s ^ "-" ^ sz e ^ ":" ^ sz last ^ "[" ^ join "," (fun (q, i) -> sz q ^ "/" ^ sz i) rows ^ "]"
+  | MEmpty (lo, hi) -> "E" ^ sz lo ^ "-" ^ sz hi
+let c05_srvq t =
+  let sv = p_srv t in let n = p_sneed t in
+  join " " fmt_msg (serve sv n)
+let c05_chk t =
+  let sv = p_srv t in let n = p_sneed t in
+  let k = ti t in
+  let out = tlist t k (fun t -> match tok t with
+      | "F" -> let v = tz t in let s = tz t in let e = tz t in let last = tz t in let rows = p_rows t in MFull (v, rows, s, e, last)
+      | "E" -> let lo = tz t in let hi = tz t in MEmpty (lo, hi)
+      | x -> failwith ("bad msg " ^ x)) in
+  "ok=" ^ sb (check_serve sv n out)
+
 (* ---------- dispatch ---------- *)
 let handlers : (string * (toks -> string)) list ref = ref [
   "chunks", c08_chunks;
@@ -425,6 +462,8 @@ let handlers : (string * (toks -> string)) list ref = ref [
   "chk_needs", c04_chk;
   "members", c18_members;
   "chk_members", c18_chk;
+  "srvq", c05_srvq;
+  "chk_srv", c05_chk;
   "part", c03_part;
   "chk_part", c03_chk;
   "ingest", c10_ingest;
